@@ -116,7 +116,8 @@ def gen_random(rng):
             hist.append(("boot",))
         elif r < 0.72:
             # any other psutil call in between: cache maintenance and table queries
-            hist.append(rng.choice([("clear",), ("clear",), ("pids",), ("pidex", p)]))
+            hist.append(rng.choice([("clear",), ("clear",), ("pids",), ("pidex", p),
+                                    ("visit", "boot"), ("visit", "proc"), ("visit", "pidex")]))
         elif r < 0.74:
             hist.append(("fault", rng.choice(["EMFILE", "ENFILE", "EIO", "ENOMEM"])))
         elif r < 0.75 and nh:
@@ -264,6 +265,10 @@ def fresh_histories():
                 [("new", PID), ("sig", 0, "send_signal", 1000), ("isrun", 0), ("sig", 0, "send_signal", 0), ("isrun", 0), ("new", PID)],
                 [("iter", "keep"), ("sig", 0, "send_signal", 65), ("iter", "keep"), ("isrun", 0)],
                 [("iter", "keep"), ("step", -86400), ("clear",), ("iter", "keep"), ("isrun", 0)],
+                [("new", PID), ("step", 300), ("visit", "boot"), ("isrun", 0), ("new", PID)],
+                [("new", PID), ("step", -3600), ("visit", "proc"), ("new", PID), ("isrun", 0)],
+                [("visit", "boot"), ("new", PID), ("step", 86400), ("visit", "pidex"), ("visit", "boot"), ("new", PID), ("isrun", 0)],
+                [("iter", "keep"), ("step", 7), ("visit", "proc"), ("iter", "keep"), ("isrun", 0)],
                 [("step", 5), ("step", -5), ("new", PID), ("boot",), ("step", 9), ("boot",), ("new", PID)]):
         out.append(pre + mid + [("cmp",)])
     return out
